@@ -1,5 +1,7 @@
 """C05 - any-to-any convertibility: convert an IR through a chain of representation kinds, parse the last one, compare with the start."""
 from harness.rt import *  # noqa: F401,F403
+from harness import gridrun
+from harness.gridrun import grid_ob  # noqa: F401  (obligation bodies call H.grid_ob)
 from harness.rt import mk_ob
 from harness import C01, C02, C03, C04
 
@@ -42,4 +44,5 @@ def obligations(tier, seed):
                         if n % 5 == 0:
                             obs.append(mk_ob("chain", "chain", (a, b, c), ("p1_int_d", "p1_str_s", "p2_plain_then_d")[n % 3], opts, tier, funcs=FUNCS,
                                              pl=1, dr=2, timeout=600))
+    obs += gridrun.obligations('C05', tier, FUNCS)
     return obs
